@@ -810,7 +810,19 @@ func evalIterateStmt(vm *r.VM, node *syntax.IterateStmt) error {
 }
 
 // // execute expressions
+// maxEvalDepth - how many expressions may be under evaluation inside one another, over all
+// calls in progress. The evaluator descends recursively: the bound on nested calls
+// (maxCallDepth) and the parser's bound on nesting do not limit their PRODUCT - a few thousand
+// nested groups in the body of a method that recurses a few thousand levels deep would
+// exhaust the Go stack, which ends the whole host process
+const maxEvalDepth = 300000
+
 func evalExpression(vm *r.VM, expr syntax.Expression) (r.Element, error) {
+	if !vm.EnterEval(maxEvalDepth) {
+		vm.LeaveEval()
+		return nil, zerr.EvalDepthExceeded(maxEvalDepth)
+	}
+	defer vm.LeaveEval()
 	switch e := expr.(type) {
 	case *syntax.VarAssignExpr:
 		return evalVarAssignExpr(vm, e)
